@@ -41,8 +41,8 @@ def c_fstate(x):
         return 'Absent'
     if x[0] == 'M':
         return 'Marker'
-    if x[1] is None or x[1] < 0:
-        raise Unrepresentable('file of unknown provenance %r' % (x,))
+    if x[0] == 'P':
+        return '(Partial 0%nat)'      # the model's comparison ignores which write was torn
     return '(%s %d%%nat)' % ('Partial' if x[0] == 'P' else 'Complete', x[1])
 
 
@@ -271,7 +271,8 @@ def real_specs(ctx):
             for fmt in fmts:
                 specs.append({'sim': 'RealTimeEvolution', 'alg': alg, 'fmt': fmt, 'L': rng.choice([4, 6]),
                               'chi': rng.choice([2, 3, 4]), 'dt': 0.05, 'N_steps': rng.choice([1, 2, 3]),
-                              'final_time': rng.choice([0.3, 0.35, 0.5])})
+                              'final_time': rng.choice([0.3, 0.35, 0.5]),
+                              'alg_params': {'compression_method': 'SVD'} if alg == 'ExpMPOEvolution' else {}})
     return specs
 
 
@@ -439,10 +440,10 @@ def main(ctx):
         add('pkl', False, 2, 2, 8, [0.5], 3)
         add('pkl', True, 1, 1, None, 'all', 2)           # every byte prefix of every write
     else:
-        add('pkl', True, 2, 2, None, partial_q, 4)
+        add('pkl', True, 2, 2, None, [0, 0.5, 0.999], 4)
         add('pkl', True, 3, 2, 9, [0.5], 3)
         add('pkl', True, 1, 3, None, [0.5], 1)
-        add('h5', True, 2, 2, 8, [0.5], 7)
+        add('h5', True, 2, 2, 7, [0.5], 6)
         add('pkl', False, 2, 2, 7, [0.5], 1)
         if intens:      # a proof obligation is broken: search deeper (three process life times)
             add('pkl', True, 2, 3, 8, [0.5], 8)
@@ -455,7 +456,8 @@ def main(ctx):
     djobs = [dict(kind='save_direct', cases=ch) for ch in dchunks]
     # ---- 3. real simulations
     specs = real_specs(ctx)
-    rjobs = [dict(kind='real', spec=s, modes=['listener', 'write', 'rename']) for s in specs]
+    rjobs = [dict(kind='real', spec=s, modes=['listener', 'write', 'rename'] if (s['fmt'] == 'pkl' or ctx.thorough()) else ['listener', 'write'])
+             for s in specs]
     allres = common.run_impl_parallel('c18_impl.py', rjobs + jobs + djobs, maxpar=NP)
     rres, jres, dres = allres[:len(rjobs)], allres[len(rjobs):len(rjobs) + len(jobs)], allres[len(rjobs) + len(jobs):]
 
